@@ -62,12 +62,16 @@ namespace sim
       TOP_BEGIN,     // before parse()
       TOP_END,       // after parse(): flag R = result; flags EXCF if exception (x = exc index)
       IOERR,         // a reader-level call of a stock stream input ended with an error and no data (x = errno)
+      CA_START,      // hooks of an action derived from contrib control_action (rule = the rule the action is attached to)
+      CA_SUCCESS,
+      CA_FAILURE,
+      CA_UNWIND,
       N_KINDS
    };
 
    inline const char* ev_name( Ev k )
    {
-      static const char* n[] = { "ENTER", "EXIT", "EXC", "START", "SUCCESS", "FAILURE", "UNWIND", "RAISE", "RAISE_NESTED", "APPLY", "APPLY0", "A_APPLY", "A_APPLY0", "X_APPLY", "S_CTOR", "S_SUCCESS", "S_DTOR", "READ", "REQUIRE", "DISCARD", "SET_END", "FAULT", "SOFT", "TOP_BEGIN", "TOP_END", "IOERR" };
+      static const char* n[] = { "ENTER", "EXIT", "EXC", "START", "SUCCESS", "FAILURE", "UNWIND", "RAISE", "RAISE_NESTED", "APPLY", "APPLY0", "A_APPLY", "A_APPLY0", "X_APPLY", "S_CTOR", "S_SUCCESS", "S_DTOR", "READ", "REQUIRE", "DISCARD", "SET_END", "FAULT", "SOFT", "TOP_BEGIN", "TOP_END", "IOERR", "CA_START", "CA_SUCCESS", "CA_FAILURE", "CA_UNWIND" };
       return n[ int( k ) ];
    }
 
@@ -139,6 +143,7 @@ namespace sim
       TOP,        // top-level shape rules
       MI_RAISE,   // (must_if program) rule with a custom message that raises on any local failure
       MI_MSG,     // (must_if program) rule with a custom message that opted out of raising on failure
+      W_CONTROL_ACTION,   // (hooks program) rule whose action derives from control_action; p0 = 0 with unwind(), 1 without
    };
 
    struct RuleInfo
